@@ -154,8 +154,9 @@ func (s *SSTableManager) candidateTablesForCompaction(compactionMaxSizeBytes uin
 
 	verifCandidates(s, compactionMaxSizeBytes, compactionRatio, selectedPaths)
 	return compactionAction{
-		pathsToCompact: selectedPaths,
-		totalRecords:   numRecords,
+		pathsToCompact:      selectedPaths,
+		totalRecords:        numRecords,
+		includesOldestTable: len(selectedForCompaction) > 0 && selectedForCompaction[0],
 	}
 }
 
